@@ -179,7 +179,7 @@ Definition fmt_float (m : Z) : bytes :=
 (* ---- instants: t.UTC().Format(time.RFC3339), whole seconds, years 0..9999 ---- *)
 Definition civil_from_days (z : Z) : Z * Z * Z :=      (* days since 1970-01-01 -> (y, m, d) *)
   let z := z + 719468 in
-  let era := (if z >=? 0 then z else z - 146096) / 146097 in
+  let era := z / 146097 in                 (* floor division: no adjustment for negative z *)
   let doe := z - era * 146097 in
   let yoe := (doe - doe / 1460 + doe / 36524 - doe / 146096) / 365 in
   let y := yoe + era * 400 in
